@@ -31,6 +31,7 @@ func runC20(c *Ctx) {
 	c20Description(c)
 	checkRevocationWriter(c, "C20.R9")
 	c20UnknownErrorText(c)
+	c20StorageTextInHints(c)
 }
 
 // ------------------------------------------------------------------ R1
